@@ -17,8 +17,9 @@ package main
 //              A method call v.M(..) on a variable whose type is imported (sync.Map, atomic.Value ...) is a
 //              WRITE unless M is known to be read-only (Load, Range, Match* ...): a process-wide memo is
 //              shared state written during processing even if the type synchronises internally
-//   pkg.v[]    an element object of the package-level table v reached through a local alias
-//              (`x := v[k]`, `for _, x := range v`) -- writes only
+//   pkg.v[]    an object reached from the package-level variable v through a local pointer that MAY alias it
+//              (`x := v[k]`, `for _, x := range v`, then `y := x.F` ...; flow insensitive, never forgotten) -- writes only:
+//              `y.G = ..` is then a write of the process-wide object
 //   local.x / deref  writes through a local map/slice/pointer of unknown origin
 //   handout:pkg.v  a function RETURNS the pointer held in the package-level variable v (or &v): the process-wide
 //              object is handed out, e.g. by a constructor helper that shares one default object, and ends up in
@@ -418,6 +419,7 @@ type lkWalk struct {
 	ownRet    map[*ast.ReturnStmt]bool // return statements of the function itself (not of a literal inside it)
 	fieldAl   map[types.Object]string  // local bound to a slice/map field (x := e.F, x := e.F[a:b]) -> "T.F"
 	paramAl   map[types.Object]bool    // local bound to (a reslicing of) a slice/map parameter
+	pkgElem   map[types.Object]string  // local that MAY point into the package-level object "pkg.v" (never forgotten)
 	params    map[types.Object]bool    // parameters of the function and of its inlined literals
 	inlineObj map[types.Object]bool    // locals bound only to literals that are walked in place
 }
@@ -426,7 +428,8 @@ func (g *lkGen) walkBody(fn *lkFunc, body ast.Node, top *ast.BlockStmt, sig *ast
 	w := &lkWalk{g: g, fn: fn, fresh: map[types.Object]bool{}, alias: map[types.Object]string{}, wtgt: map[ast.Node]string{},
 		skip: map[ast.Node]bool{}, okLock: map[*ast.CallExpr]bool{}, escLit: map[*ast.FuncLit]bool{},
 		params: map[types.Object]bool{}, inlineObj: map[types.Object]bool{},
-		ownRet: map[*ast.ReturnStmt]bool{}, fieldAl: map[types.Object]string{}, paramAl: map[types.Object]bool{}}
+		ownRet: map[*ast.ReturnStmt]bool{}, fieldAl: map[types.Object]string{}, paramAl: map[types.Object]bool{},
+		pkgElem: map[types.Object]string{}}
 	ast.Inspect(body, func(n ast.Node) bool {
 		switch x := n.(type) {
 		case *ast.FuncLit:
@@ -896,6 +899,9 @@ func (w *lkWalk) markWrite(lhs ast.Expr) {
 		if root := identOf(rootOf(x.X)); root != nil {
 			if a := w.alias[w.g.info.Uses[root]]; a != "" {
 				w.wtgt[root] = a + "[]"
+			} else if a := w.pkgElem[w.g.info.Uses[root]]; a != "" {
+				// written through a pointer that may have been taken from a package-level object
+				w.wtgt[root] = a + "[]"
 			}
 		}
 	case *ast.StarExpr:
@@ -938,6 +944,16 @@ func (w *lkWalk) bind(lhs ast.Expr, rhs ast.Expr, ranged bool) {
 	}
 	if v, ok := obj.(*types.Var); !ok || v.Parent() == w.g.pkg.Scope() {
 		return
+	}
+	// may-alias, flow insensitive: once a pointer/map/slice local was bound to something reached from a
+	// package-level object (x := pkgTable[k]; y := x.F.G; for _, v := range pkgTable) it keeps that mark, whatever
+	// other branches assign to it later in source order
+	if rhs != nil {
+		if v := obj.(*types.Var); isRefType(v.Type()) {
+			if loc := w.pkgReach(rhs); loc != "" {
+				w.pkgElem[obj] = loc
+			}
+		}
 	}
 	delete(w.fresh, obj)
 	delete(w.alias, obj)
@@ -1459,6 +1475,61 @@ func (w *lkWalk) adoption(lhs, rhs ast.Expr) {
 	case *ast.Ident:
 		if v, ok := w.g.info.Uses[x].(*types.Var); ok && v.Parent() == w.g.pkg.Scope() {
 			w.acc("adopt:pkg."+v.Name(), true, lhs.Pos())
+		}
+	}
+}
+
+func isRefType(t types.Type) bool {
+	if t == nil {
+		return false
+	}
+	switch t.Underlying().(type) {
+	case *types.Pointer, *types.Map, *types.Slice:
+		return true
+	}
+	return false
+}
+
+// pkgReach: e is reached from a package-level variable through fields, elements and pointers (no calls, no
+// copies by value of the final object are considered: the caller checks that the bound variable is a reference).
+func (w *lkWalk) pkgReach(e ast.Expr) string {
+	for {
+		switch x := unparen(e).(type) {
+		case *ast.SelectorExpr:
+			if w.g.info.Selections[x] == nil {
+				return "" // qualified identifier of an import
+			}
+			e = x.X
+		case *ast.IndexExpr:
+			e = x.X
+		case *ast.SliceExpr:
+			e = x.X
+		case *ast.StarExpr:
+			e = x.X
+		case *ast.TypeAssertExpr:
+			e = x.X
+		case *ast.UnaryExpr:
+			if x.Op != token.AND {
+				return ""
+			}
+			e = x.X
+		case *ast.Ident:
+			v, ok := w.g.info.Uses[x].(*types.Var)
+			if !ok {
+				return ""
+			}
+			if v.Parent() == w.g.pkg.Scope() {
+				return "pkg." + v.Name()
+			}
+			if a := w.pkgElem[v]; a != "" {
+				return a
+			}
+			if a := w.alias[v]; strings.HasPrefix(a, "pkg.") {
+				return strings.TrimSuffix(a, "[]")
+			}
+			return ""
+		default:
+			return ""
 		}
 	}
 }
